@@ -1,4 +1,4 @@
-#!/venv/bin/python
+#!/usr/bin/env python3
 """Regenerate MANIFEST.json from the table below and validate it against the schema."""
 import json
 import os
@@ -16,6 +16,11 @@ CLAIMS = {
         "Exploration: ~25k (quick) / 400k (thorough) generated (type, centre, width, npts, nsigmas, limits, relative/absolute) tuples per run; every clause of the statement is an executable predicate; real-model meshes via get_mesh and the SasView wrapper cover the relative/absolute selection.",
         "Trusts numpy/scipy log/gammaln and the harness' transcription of the documented densities; limits are placed away from grid points so inclusion is rounding-independent.",
         "DESIGN.md section 3 C02"),
+    "C20": (
+        "exhaustive iteration over both conversion tables x Hypothesis-generated parameter subsets/attributes/versions, oracle = independent transcription of the table semantics (names exist, values carried, defaults)",
+        "Exploration: every table entry (75) x 100 (quick) / 1500 (thorough) generated legacy parameter sets; outputs validated against the parameter table of the current model loaded from the working tree; six genuine defects were repaired (fixed entries are replayed as regressions), five are listed findings excluded by input-derived bucket.",
+        "Assumes saved 3.x states are complete for the three hand-converted models that index specific keys; colon-style magnetic keys only where the table cannot collide with them; later model_version values checked for name validity only.",
+        "DESIGN.md section 3 C20"),
 }
 
 NOT_BUILT_REASON = "check not built yet in this round (design exists in DESIGN.md); not claimed until its machinery is committed"
